@@ -498,6 +498,38 @@ def setop_cases():
                     yield {"family": "setop", "cls": cls, "op": op, "optail": optail, "tail": tail}
 
 
+def incomplete_setop_cases():
+    """a set operation over builders that are not statements yet (no select list): nothing to render - the empty string, not ' UNION '"""
+    for cls in CTXS:
+        for op in SETOPS:
+            for which in ("first", "second", "both"):
+                for tail in ([], ["orderby", "limit"]):
+                    yield {"family": "setop_incomplete", "cls": cls, "op": op, "which": which, "tail": tail}
+
+
+def check_incomplete_setop(case):
+    import pypika_tortoise as P
+
+    Q = prog.query_cls(case["cls"])
+    t, u = P.Table("t"), P.Table("u")
+    a = Q.from_(t) if case["which"] in ("first", "both") else Q.from_(t).select(t.a)
+    b = Q.from_(u) if case["which"] in ("second", "both") else Q.from_(u).select(u.a)
+    try:
+        so = getattr(a, case["op"])(b)
+        if "orderby" in case["tail"]:
+            so = so.orderby(t.a)
+        if "limit" in case["tail"]:
+            so = so.limit(5)
+        sql = so.get_sql(prog.sql_context(case["cls"]))
+    except Exception as e:
+        if type(e).__module__.startswith("pypika_tortoise"):
+            return []  # refusing with a library exception is one of the permitted outcomes
+        return [(mksig("setop_incomplete", "raises", type(e).__name__), repr(e))]
+    if sql != "":
+        return [(mksig("fragment", "setop_of_incomplete_builders"), "%s of builders without a select list (%s) renders the fragment %r" % (case["op"], case["which"], sql))]
+    return []
+
+
 def setop_program(case, tail):
     src = {"T": ["tbl", "t", None, None], "U": ["tbl", "u", None, None]}
     A = ["col", "T", "a"]
@@ -633,6 +665,8 @@ def check_case(case):
         return check_cte(case)
     if case.get("family") == "setop":
         return check_setop(case)
+    if case.get("family") == "setop_incomplete":
+        return check_incomplete_setop(case)
     return check(case)
 
 
@@ -640,6 +674,8 @@ def valid_case(case):
     try:
         if case.get("family") == "cte":
             return case in list(cte_cases())
+        if case.get("family") == "setop_incomplete":
+            return case in list(incomplete_setop_cases())
         if case.get("family") == "setop":
             return case["cls"] in CTXS and case["op"] in SETOPS and case["optail"] in (0, 1, 2, 3, 4) and case["tail"] in SETOP_TAILS
         p = case["program"]
@@ -679,6 +715,10 @@ def run_shard(shard):
         for case in setop_cases():
             col.case(case, bool(case["tail"]), classes=("family:setop", "cls:" + case["cls"]))
             for sig, detail in check_setop(case):
+                col.violation(sig, case, detail)
+        for case in incomplete_setop_cases():
+            col.case(case, True, classes=("family:setop_incomplete",))
+            for sig, detail in check_incomplete_setop(case):
                 col.violation(sig, case, detail)
         for case in cte_cases():
             col.case(case, True, classes=("family:cte",))
